@@ -81,3 +81,44 @@ Theorem carry_helpers_defined : forall a b w v,
   /\ lsint_is_fixnum_safe v = true /\ luint_is_fixnum_safe a = true.
 Proof. exact LuintProofs.carry_helpers_defined. Qed.
 Print Assumptions carry_helpers_defined.
+
+(** (B) simplify.c:11-158 on the analysed core AST (coq/C09/Ast.v); SPEC = the interpreter [eval] of coq/C09/Simplify.v
+    (let-fragment: constants, lexical references, set!, if, begin, arithmetic opcodes, literal-lambda applications, output).
+    PARTIAL — the full statement is
+      forall e rho sigma r, Sem.eval f e rho sigma = r -> defined r -> Sem.eval f (simplify e) rho sigma = r
+    for the whole core language; what is missing here: first-class closures, recursion and rest parameters are outside
+    the interpreter (a lambda in value position has no defined result), so the theorem speaks about let-fragment
+    programs only; the richer programs are covered by the four-build differential run. *)
+From ChibiV Require Import C09.Ast C09.Simplify C09.SimplifyProofs.
+
+Theorem simplify_sound_partial : forall e r o v r1 o1,
+  wf e = true -> eval e (r, o) = (Some v, (r1, o1)) ->
+  exists r1', eval (simplify e [] true) (r, o) = (Some v, (r1', o1)) /\ forall x l, lookup x l r1 = lookup x l r1'.
+Proof. exact SimplifyProofs.simplify_sound_body. Qed.
+Print Assumptions simplify_sound_partial.
+
+(** with any substitution list in force: the deleted parameters hold their constants ([agree]) *)
+Theorem subst_sound : forall e S r r' o v r1 o1,
+  wf e = true -> C1 S e -> C2 S e -> ~ In 0 (sdom S) -> agree S r r' ->
+  eval e (r, o) = (Some v, (r1, o1)) ->
+  exists r1', eval (simplify e S true) (r', o) = (Some v, (r1', o1)) /\ agree S r1 r1'.
+Proof. exact SimplifyProofs.simplify_sound_gen. Qed.
+Print Assumptions subst_sound.
+
+Theorem fold_only_when_value : forall o args S il c,
+  simplify (App (Op o) args) S il = Lit c ->
+  exists cs, all_simple (map (fun a => simplify a S il) args) = Some cs /\ prim_eval o cs = Some c /\ is_arith o = true.
+Proof. exact SimplifyProofs.fold_only_when_value. Qed.
+Print Assumptions fold_only_when_value.
+
+Theorem dead_branch_sound : forall c a b S il,
+  simplify (Cnd (Lit c) a b) S il = if const_false c then simplify b S il else simplify a S il.
+Proof. exact SimplifyProofs.dead_branch_sound. Qed.
+Print Assumptions dead_branch_sound.
+
+Theorem seq_drop_sound : forall es, Forall sound es -> forall S r r' o v r1 o1,
+  forallb wf es = true -> Forall (C1 S) es -> Forall (C2 S) es -> ~ In 0 (sdom S) -> agree S r r' ->
+  eval_seq es (r, o) = (Some v, (r1, o1)) ->
+  exists r1', eval_seq (seq_filter (map (fun a => simplify a S true) es)) (r', o) = (Some v, (r1', o1)) /\ agree S r1 r1'.
+Proof. exact SimplifyProofs.seq_sound. Qed.
+Print Assumptions seq_drop_sound.
